@@ -139,8 +139,36 @@ def _cli_chunk(args):
         shutil.rmtree(tmp, ignore_errors=True)
     return cnt, fails
 
+def todo_check(seed, n):
+    """the real `Theory.add_todo` / the list handed to the formulas by `Theory.translate` vs the model's `addTodo`, on random
+    request sequences with repetitions (formula objects identified by their representation)"""
+    import telingo.theory as thy
+    r = random.Random(seed)
+    MODEL = tl.LeanExe("telmodel")
+    class F:
+        def __init__(self, rep):
+            self._rep = rep
+    seqs, lines, impl = [], [], []
+    for _ in range(n):
+        reps = r.sample(["a", "b", "(a&b)", "(1>a)", "(1>:a)", "(a>?b)", "((a&b)|c)", "&true", "(~a)"], r.randint(1, 5))
+        ks = [(r.randint(0, 3), r.choice(reps)) for _ in range(r.randint(0, 12))]
+        t = thy.Theory()
+        for st, rep in ks:
+            t.add_todo(F(rep), st)
+        got = [(st, f._rep) for st, f in t._Theory__todo]
+        seqs.append(ks)
+        lines.append(tl.sexp(("todo",) + tuple((st, tl.QStr(rep)) for st, rep in ks)))
+        impl.append("(" + " ".join("({} {})".format(st, tl.sexp(tl.QStr(rep))) for st, rep in got) + ")")
+    outs = MODEL.batch(lines)
+    dis = []
+    for ks, mo, got in zip(seqs, outs, impl):
+        if " ".join(mo.split()) != got:
+            dis.append({"layer": "L1-todo", "text": "add_todo sequence " + str(ks), "model": mo, "impl": got})
+    return len(seqs), dis
+
 def correspondence(ctx):
     # the model's ground program on permuted/duplicated rule programs
+    ntodo, tdis = todo_check(ctx.seed * 191 + 13, 200 if ctx.tier == "quick" else 3000)
     r = random.Random(ctx.seed * 73 + 1)
     cases = []
     for i in range(60 if ctx.tier == "quick" else 800):
@@ -149,7 +177,8 @@ def correspondence(ctx):
         cases.append(perm + [r.choice(rules)])
     st, dis = rules_check.run_corr(ctx, cases, 2)
     st["sample"] = {"program": tl.render_prog(cases[-1])}
-    return st, dis
+    st["todo_request_sequences"] = ntodo
+    return st, dis + tdis
 
 def search(ctx, deep):
     n = (30 if ctx.tier == "quick" else 400) * (3 if deep else 1)
